@@ -1,6 +1,6 @@
 import Marwood.Lemmas.TransformSoundPlain
 import Marwood.Lemmas.TransformFuel
-import Marwood.Lemmas.TransformSelect
+import Marwood.Lemmas.TransformAccept
 /-!
 # C17 — syntax-rules is sound where supported and always terminates
 
@@ -67,42 +67,53 @@ theorem soundness_noEllipsis_partial (f0 : Nat) (d : Datum) (t : Transform) (fue
     exact transformRules_plain s fuel f0 t u hte htl t.rules e
       (fun r hr => ⟨hrules r hr, (hcl r hr).1, (hcl r hr).2⟩) huse
 
+/-- `(define-syntax m (syntax-rules () ((_ a ... b) (a ... b)) ((_ c) (s c))))` -/
+def gapDef' : Datum :=
+  Datum.ofList [.sym ['d'], .sym ['m'], Datum.ofList [.sym ['s','y','n','t','a','x','-','r','u','l','e','s'], .nil,
+    Datum.ofList [Datum.ofList [.sym ['_'], .sym ['a'], .sym ['.','.','.'], .sym ['b']],
+                  Datum.ofList [.sym ['a'], .sym ['.','.','.'], .sym ['b']]],
+    Datum.ofList [Datum.ofList [.sym ['_'], .sym ['c']], Datum.ofList [.sym ['s'], .sym ['c']]]]]
+
 /-! ## T17.1, classes 2–5: which rule fires
 
-For every pattern shape `try_new` lets through (`wfPattern`: proper, vector-free lists that do not
-start with the ellipsis and contain it at most once — trailing ellipsis, ellipsis followed by a fixed
-tail, sub-patterns under an ellipsis at any nesting, with literals, `_`, data and a custom ellipsis)
-the verdict of the matcher's state machine, including the
+For every transformer `try_new` accepts (its patterns are then `wfPattern`: proper, vector-free lists
+that do not start with the ellipsis and contain it at most once — trailing ellipsis, ellipsis
+followed by a fixed tail, sub-patterns under an ellipsis, with literals, `_`, data and a custom
+ellipsis) the verdict of the matcher's state machine, including the
 `pattern_iter.len() == expr_iter.len() + 2` hand-off, is R7RS's: the rule `transform` expands with
 matches per R7RS, and every earlier rule does not match per R7RS or is in the excluded class
 `zeroRepTail` (the known finding). This is the first two conjuncts of T17.1; the third
 (`e = instantiate`) is proved for class 1 only and otherwise carried by the correspondence. -/
 
-/-- every pattern of the transformer has the shape `try_new` lets through (decidable) -/
-def PatternsWF (t : Transform) : Prop :=
-  ∀ es, t.ellipsis = .sym es → ∀ r ∈ t.rules, wfPattern es r.1.expr = true
+/-- **every transformer `try_new` accepts has well-formed patterns** (`check_pattern_support`:
+    proper, vector-free; `Pattern::build`: no leading ellipsis, at most one per list) -/
+theorem accepted_patterns_wellformed (f0 : Nat) (d : Datum) (t : Transform)
+    (hdef : Transform.tryNew f0 d = .ok t) :
+    ∃ s : Setup, t.ellipsis = s.ell ∧ t.literals = s.lits ∧
+      ∀ r ∈ t.rules, wfPattern s.es r.1.expr = true := by
+  obtain ⟨s, hte, htl, hrules⟩ := Transform.tryNew_ok hdef
+  exact ⟨s, hte, htl, fun r hr => ruleOK_wfPattern s (hrules r hr)⟩
 
 theorem rule_selection_partial (f0 : Nat) (d : Datum) (t : Transform) (fuel : Nat) (u e : Datum)
-    (hdef : Transform.tryNew f0 d = .ok t) (hwf : PatternsWF t)
+    (hdef : Transform.tryNew f0 d = .ok t)
     (huse : t.transform fuel u = .ok e) :
     ∃ s : Setup, t.ellipsis = s.ell ∧ t.literals = s.lits ∧ Selects s.ctx (specRules t) u := by
-  obtain ⟨s, hte, htl, _⟩ := Transform.tryNew_ok hdef
+  obtain ⟨s, hte, htl, hwf⟩ := accepted_patterns_wellformed f0 d t hdef
   refine ⟨s, hte, htl, ?_⟩
   unfold Transform.transform at huse
   split at huse
   · cases huse
-  · exact transformRules_selects s fuel t u hte htl t.rules e
-      (hwf s.es (by simpa [Setup.ell] using hte)) huse
+  · exact transformRules_selects s fuel t u hte htl t.rules e hwf huse
 
 /-- with the guard, the selected rule is exactly R7RS's first matching rule -/
 theorem rule_selection_gapfree (f0 : Nat) (d : Datum) (t : Transform) (fuel : Nat) (u e : Datum)
-    (hdef : Transform.tryNew f0 d = .ok t) (hwf : PatternsWF t)
+    (hdef : Transform.tryNew f0 d = .ok t)
     (huse : t.transform fuel u = .ok e) :
     ∃ s : Setup, t.ellipsis = s.ell ∧ t.literals = s.lits ∧
       (GapFree s.ctx (specRules t) u = true →
         ∃ i r, (specRules t)[i]? = some r ∧ (matchRule s.ctx r u).isSome = true ∧
           ∀ j : Nat, j < i → ∀ r', (specRules t)[j]? = some r' → matchRule s.ctx r' u = none) := by
-  obtain ⟨s, hte, htl, i, r, hi, hm, hprev⟩ := rule_selection_partial f0 d t fuel u e hdef hwf huse
+  obtain ⟨s, hte, htl, i, r, hi, hm, hprev⟩ := rule_selection_partial f0 d t fuel u e hdef huse
   refine ⟨s, hte, htl, fun hg => ⟨i, r, hi, hm, fun j hj r' hr' => ?_⟩⟩
   rcases hprev j hj r' hr' with h | h
   · exact h
@@ -111,6 +122,15 @@ theorem rule_selection_gapfree (f0 : Nat) (d : Datum) (t : Transform) (fuel : Na
     simp only [GapFree, List.all_eq_true] at hg
     have := hg r' hmem
     simp [h] at this
+
+/-- hypotheses satisfiable non-trivially: `(syntax-rules () ((_ a ... b) (a ... b)) ((_ c) (s c)))`
+    on `(m 1 2 3)` goes through the hand-off and expands with the first rule -/
+example : ∃ t, Transform.tryNew 100 gapDef' = .ok t ∧
+    t.transform 200 (Datum.ofList [.sym ['m'], .num (.fix 1), .num (.fix 2), .num (.fix 3)])
+      = .ok (Datum.ofList [.num (.fix 1), .num (.fix 2), .num (.fix 3)]) ∧
+    GapFree ⟨['.','.','.'], []⟩ (specRules t)
+      (Datum.ofList [.sym ['m'], .num (.fix 1), .num (.fix 2), .num (.fix 3)]) = true :=
+  ⟨_, rfl, rfl, rfl⟩
 
 /-! ## The witness of the known finding -/
 
